@@ -108,4 +108,12 @@ META.update({
         technique="property-based testing (rapid): differential sync-vs-async runs of generated scenarios + generated reader/cancel programs against gated executions with history invariants",
     ),
 })
+META.update({
+    "C13": dict(
+        text="Property testing of the retry delay envelope over generated delay configurations (fixed, backoff with any factor, random range, delay function; jitter duration or factor; max duration) at magnitudes from microseconds to hours. Black box: every delay reported by OnRetryScheduled is non-negative, inside the configured envelope widened by the jitter, never past the remaining max duration (bounded on both sides by elapsed times sampled before and after the policy's own reading), and the next attempt never starts before it elapsed (lower bound on monotonic time). Probe: consecutive delays of one retry executor on a virtual elapsed time, at magnitudes that cannot be waited for, checked against the stepwise backoff sequence (never above maxDelay, never decreasing, jitter not accumulating) with an exact clamp. Sampling, not proof.",
+        design_ref="DESIGN.md section 6, C13",
+        note="Tolerances: one nanosecond and 1e-6 relative per backoff step, 1e-5 relative for the jitter factor (float32 arithmetic); absolute bounds exact. The probe uses the verif hook retrypolicy.VerifDelayProbe.",
+        technique="property-based testing (rapid): interval oracle over generated delay configurations, black-box (listener + timestamps) and through a delay probe; native fuzzing in thorough",
+    ),
+})
 NOT_APPLICABLE = [dict(property_id=p, reason="check not built yet in this session (work in progress; DESIGN.md section 6 describes the planned property-based check)") for p in ALL if p not in META]
